@@ -5,16 +5,12 @@ go 1.20
 require (
 	github.com/ElrondNetwork/elrond-vm-common v0.0.0
 	github.com/anishathalye/porcupine v1.3.0
-	github.com/stretchr/testify v1.5.1
 )
 
 require (
 	github.com/ElrondNetwork/elrond-go-logger v1.0.4 // indirect
-	github.com/davecgh/go-spew v1.1.0 // indirect
 	github.com/gogo/protobuf v1.3.2 // indirect
 	github.com/mitchellh/mapstructure v1.4.1 // indirect
-	github.com/pmezard/go-difflib v1.0.0 // indirect
-	gopkg.in/yaml.v2 v2.2.2 // indirect
 )
 
 replace github.com/ElrondNetwork/elrond-vm-common => /repo
